@@ -117,6 +117,86 @@ def rule_batch_coupled(repo: Repo, rep: Report, classes: List[ClassInfo]) -> int
     return n
 
 
+BATCH_SENSITIVE_CALLS = {
+    "torch.cdist": ("compute_mode", ("donot_use_mm_for_euclid_dist",), "torch.cdist switches (default compute_mode) to a matrix-multiplication formula with different rounding once more than 25 rows are processed together"),
+}
+
+
+def rule_batch_numerics(repo: Repo, rep: Report, classes: List[ClassInfo]) -> int:
+    """Library calls whose result for ONE row depends on how many rows are processed in the same call."""
+    n = 0
+    for ci in classes:
+        for m, fi in ci.methods.items():
+            for c in ast.walk(fi.node):
+                if isinstance(c, ast.Call) and call_name(c) in BATCH_SENSITIVE_CALLS:
+                    kwname, safe, why = BATCH_SENSITIVE_CALLS[call_name(c)]
+                    kw = next((k.value for k in c.keywords if k.arg == kwname), None)
+                    n += 1
+                    if isinstance(kw, ast.Constant) and kw.value in safe:
+                        rep.ok("BATCH-NUMERICS", fi, f"{unparse(c)[:80]}", f"{kwname}={kw.value!r}: the same formula for every batch size", node=c)
+                    else:
+                        rep.violation("BATCH-NUMERICS", fi, f"{unparse(c)[:80]}", f"{why}: for samples on or next to a decision boundary the result of one batch member depends on the size of the batch it is processed in", node=c)
+    return n
+
+
+def rule_row_memo(repo: Repo, rep: Report, classes: List[ClassInfo]) -> int:
+    """A local memo filled while looping over the rows of a batch couples the rows; it is sound only when its key
+    determines the row exactly.  Keys built by a numeric reduction (weighted sums, dot products, hashes of floats)
+    are lossy: two different rows can share a key and the later one silently receives the earlier one's result."""
+    n = 0
+    for ci in classes:
+        for m, fi in ci.methods.items():
+            set_parents(fi.node)
+            local_dicts = {t.id for s_ in ast.walk(fi.node) if isinstance(s_, (ast.Assign, ast.AnnAssign)) for t in ([s_.target] if isinstance(s_, ast.AnnAssign) else s_.targets) if isinstance(t, ast.Name) and s_.value is not None and (isinstance(s_.value, ast.Dict) and not s_.value.keys or (isinstance(s_.value, ast.Call) and call_name(s_.value) in ("dict", "OrderedDict") and not s_.value.args))}
+            if not local_dicts:
+                continue
+            defs: Dict[str, List[ast.AST]] = {}
+            for s_ in ast.walk(fi.node):
+                if isinstance(s_, ast.Assign):
+                    for t in s_.targets:
+                        if isinstance(t, ast.Name):
+                            defs.setdefault(t.id, []).append(s_.value)
+            for lp in [x for x in ast.walk(fi.node) if isinstance(x, ast.For)]:
+                for d in local_dicts:
+                    stores = [s_ for s_ in ast.walk(lp) if isinstance(s_, ast.Assign) and isinstance(s_.targets[0], ast.Subscript) and isinstance(s_.targets[0].value, ast.Name) and s_.targets[0].value.id == d]
+                    reads = [x for x in ast.walk(lp) if isinstance(x, ast.Subscript) and isinstance(x.ctx, ast.Load) and isinstance(x.value, ast.Name) and x.value.id == d]
+                    if not stores or not reads:
+                        continue
+                    key = stores[0].targets[0].slice
+
+                    def lossy(e: ast.AST, depth: int = 0) -> Optional[bool]:
+                        """True: built by a numeric reduction; False: an exact encoding; None: unknown."""
+                        verdict: Optional[bool] = None
+                        for x in ast.walk(e):
+                            if isinstance(x, ast.Call):
+                                short = (call_name(x) or "").split(".")[-1] if call_name(x) else (x.func.attr if isinstance(x.func, ast.Attribute) else "")
+                                if isinstance(x.func, ast.Attribute):
+                                    short = x.func.attr
+                                if short in ("sum", "mean", "dot", "matmul", "norm", "prod", "hash", "item") and short != "item":
+                                    return True
+                                if short in ("tobytes", "tuple", "tolist", "bytes") and verdict is None:
+                                    verdict = False
+                            if isinstance(x, ast.Name) and x.id in defs and depth < 4:
+                                for v in defs[x.id]:
+                                    r = lossy(v, depth + 1)
+                                    if r is True:
+                                        return True
+                                    if r is False and verdict is None:
+                                        verdict = False
+                        return verdict
+
+                    lv = lossy(key)
+                    n += 1
+                    what = f"{ci.name}.{m}: local memo `{d}` keyed by `{unparse(key)}` inside a loop over the batch"
+                    if lv is True:
+                        rep.violation("ROW-MEMO", fi, what, "the key is a numeric reduction of the row (weighted sum / dot product): it is not injective in floating-point arithmetic, so two different rows of one call can share a key and the later row receives the earlier row's result - the output for a row depends on the other rows of the batch", node=stores[0])
+                    elif lv is False:
+                        rep.ok("ROW-MEMO", fi, what, "the key is an exact encoding of the row", node=stores[0])
+                    else:
+                        rep.undecided("ROW-MEMO", fi, what, "injectivity of the key not recognised", node=stores[0])
+    return n
+
+
 # ---------------------------------------------------------------------------
 # CACHE-KEY
 # ---------------------------------------------------------------------------
@@ -370,6 +450,8 @@ def run(repo: Repo, rep: Report, tier: str) -> None:
     n = rule_purity(repo, rep, classes)
     n += rule_row_index(repo, rep, classes)
     n += rule_batch_coupled(repo, rep, classes)
+    n += rule_batch_numerics(repo, rep, classes)
+    n += rule_row_memo(repo, rep, classes)
     n += rule_cache_key(repo, rep, classes)
     n += rule_state(repo, rep, classes)
     n += rule_tlist(repo, rep, classes)
